@@ -123,8 +123,25 @@ fn c01_labels(c: &ProgCase) -> Vec<String> {
     l
 }
 
+/// serde's enum-level `rename_all_fields` only applies to variants without a rule of their own: written next to
+/// per-variant rules it must not change a single key
+fn c01_post(mut items: Vec<Item>) -> Vec<Item> {
+    for it in items.iter_mut() {
+        if it.layout % 3 != 0 {
+            continue;
+        }
+        if let Kind::Enum { variants, .. } = &it.kind {
+            let svs: Vec<&Variant> = variants.iter().filter(|v| matches!(v.payload, Payload::Struct { .. })).collect();
+            let all_ruled = !svs.is_empty() && svs.iter().all(|v| matches!(&v.payload, Payload::Struct { rename_all: Some(_), .. }));
+            if all_ruled {
+                it.decoy_rename_all_fields = Some(crate::gen::RULES[(it.layout as usize / 3) % 8].to_string());
+            }
+        }
+    }
+    items
+}
 pub fn c01() -> FactCheck {
-    FactCheck { name: "c01-keys", gen: c01_gen, langs: &ALL_LANGS, oracle: c01_oracle, nontrivial: c01_nontrivial, labels: c01_labels, cfgs: cfg_strategy_acr, exec_python: false, post: no_post }
+    FactCheck { name: "c01-keys", gen: c01_gen, langs: &ALL_LANGS, oracle: c01_oracle, nontrivial: c01_nontrivial, labels: c01_labels, cfgs: cfg_strategy_acr, exec_python: false, post: c01_post }
 }
 
 // =============================================================================================== C02
